@@ -702,53 +702,42 @@ theorem check_sound (allowed : List Rule) (g : Graph) (hc : checkGraph allowed g
         simp [isImm, Graph.heap, List.getElem?_map, hn, h1]
     · exact Or.inr h1
 
-/- Full-strength statement, NOT provable on the unchanged tree:
-
-     theorem graphs_separated :
-       Gen.HeapGraphs.graphs.all (fun p => checkGraph allowedFrozen p.2) = true
-
-   It fails for BODY, REGION, 3DSOLID, SURFACE, EXTRUDEDSURFACE, LOFTEDSURFACE, REVOLVEDSURFACE,
-   SWEPTSURFACE: `Body.copy_data` aliases the mutable `_temporary_transformation` object (finding C16-1,
-   replayed on the real code by the oracle: `copy.transform(m)` transforms the source).  The proved
-   version tolerates exactly the rules in `knownShared`. -/
-
-/-- **graphs_separated** (partial, see above): for one fully populated instance of every copyable registered
+/-- **graphs_separated**: for one fully populated instance of every copyable registered
     entity class the extracted object graph of (source, source.copy()) passes the certificate check: the
     listed reach sets are closed, and every object in both is immutable or in the frozen region, which is
-    justified node by node by a rule of `allowedFrozen ++ knownShared`. -/
-theorem graphs_separated_partial :
-    Gen.HeapGraphs.graphs.all (fun p => checkGraph tolerated p.2) = true := by
+    justified node by node by a rule of `allowedFrozen`.  (Reverting fix 3a74eae26 - `Body.copy_data` aliasing
+    `_temporary_transformation` - makes this fail for the eight ACIS classes.) -/
+theorem graphs_separated :
+    Gen.HeapGraphs.graphs.all (fun p => checkGraph allowedFrozen p.2) = true := by
   decide +kernel
 
 /-- `frame` instantiated with the extracted graphs: whatever is written through the copy (outside the frozen
     region) the observation of the source is unchanged, and vice versa -/
-theorem graphs_frame_partial (name : String) (g : Graph) (hm : (name, g) ∈ Gen.HeapGraphs.graphs)
+theorem graphs_frame (name : String) (g : Graph) (hm : (name, g) ∈ Gen.HeapGraphs.graphs)
     (ws : List Write) (n : Nat) :
     observe (applyAll g.frozenIds g.rootB g.heap ws) n (.own g.rootA) = observe g.heap n (.own g.rootA) ∧
     observe (applyAll g.frozenIds g.rootA g.heap ws) n (.own g.rootB) = observe g.heap n (.own g.rootB) := by
-  have hall := graphs_separated_partial
+  have hall := graphs_separated
   simp only [List.all_eq_true] at hall
   have hc := hall (name, g) hm
-  obtain ⟨wf, ha, hb, sep⟩ := check_sound tolerated g hc
+  obtain ⟨wf, ha, hb, sep⟩ := check_sound allowedFrozen g hc
   exact ⟨frame _ _ _ _ ws wf ha hb sep n,
          frame _ _ _ _ ws wf hb ha (sep_symm _ _ _ _ sep) n⟩
 
 /-- every entry of a shared mutable region found in any scenario (copy(), copy_to_layout(),
     duplicate_entity(), virtual entities of INSERT / POLYLINE / DIMENSION / ..., disassemble primitives,
-    pairs of documents created by new()/readfile()/recover) is covered by the Frozen list or a known defect -/
-theorem candidates_frozen_partial :
-    Gen.HeapGraphs.candidates.all (fun c => ruleAllowed tolerated c.2) = true := by
+    pairs of documents created by new()/readfile()/recover) is covered by the Frozen list.  (Reverting fix 6d1f8396b - module level Tags stored
+    in every new(setup=True) document - makes this fail.) -/
+theorem candidates_frozen :
+    Gen.HeapGraphs.candidates.all (fun c => ruleAllowed allowedFrozen c.2) = true := by
   decide +kernel
-
-/- Full-strength statement, NOT provable on the unchanged tree (C16-1, C16-2, C16-3):
-     theorem recipes_sharing_allowed : Gen.HeapGraphs.recipes.all (recipeOK false) = true -/
 
 /-- source level check, independent of the populated instances: every assignment `entity.x = ...` in every
     copy_data method (parsed from the current source text) is a deepcopy, a strategy copy of sub-entities, a
-    reset, or passes by reference only parts on the explicit lists `aliasAllowed` / `shallowAllowed`
-    (partial: tolerates the three known defects) -/
-theorem recipes_sharing_allowed_partial :
-    Gen.HeapGraphs.recipes.all (recipeOK true) = true ∧ 80 ≤ Gen.HeapGraphs.recipes.length := by
+    reset, a new default object, or passes by reference only parts on the explicit lists `aliasAllowed` /
+    `shallowAllowed`.  (Reverting fix 3a74eae26 or 9cace061f makes this fail.) -/
+theorem recipes_sharing_allowed :
+    Gen.HeapGraphs.recipes.all recipeOK = true ∧ 80 ≤ Gen.HeapGraphs.recipes.length := by
   decide +kernel
 
 /-- the extractor skipped only navigation references of the documented kinds -/
